@@ -190,6 +190,41 @@ def w_correct_all_words(task):
     return acc
 
 
+def le(v, n):
+    return bitarray(format(v, f"0{n}b"), endian="little")
+
+
+def w_little(task):
+    name, lo, hi = task
+    n, k, d, g, ext = gf2.CODES[name]
+    cls = LIB[name]
+    code = CODESETS[name]
+    acc = Acc()
+    for m in range(lo, hi):
+        c = gf2.encode_systematic(m, n, k, g, ext)
+        case = {"code": name, "message": format(m, f"0{k}b"), "storage": "little-endian bitarray"}
+        try:
+            if to_int(cls.generate(le(m, k))) != c:
+                acc.violation("little_endian_generate_differs", case, "generate() of a little-endian bitarray is not the codeword of the same bit string")
+            if not cls.check(le(c, n)):
+                acc.violation("little_endian_codeword_rejected", case)
+            acc.case(nontrivial=True, calls=2, outcome="gen")
+            for i in range(n):
+                w = c ^ (1 << (n - 1 - i))
+                if cls.check(le(w, n)) != (w in code):
+                    acc.violation("little_endian_check_differs", {**case, "flipped": [i]})
+                if name.startswith("hamming"):
+                    ok, out = cls.check_and_correct(le(w, n))
+                    if not ok or int(out.to01(), 2) != c:
+                        acc.violation("little_endian_single_error_not_repaired", {**case, "flipped": [i], "ok": bool(ok)},
+                                      "a codeword with one inverted bit, stored little-endian, is not repaired to the original")
+                acc.case(nontrivial=True, calls=2, outcome=i, sample={**case, "flipped": [i]} if (m == lo and i == 0) else None)
+        except Exception as e:  # noqa: BLE001
+            acc.violation("exception_little_endian:" + exc_sig(e), case, repr(e))
+            acc.case()
+    return acc
+
+
 CODESETS = {}
 
 
@@ -317,6 +352,16 @@ def run(only=None):
             s.case(nontrivial=True, calls=4, outcome=name, sample=case if m == 5 else None)
             n_cases += 1
     s.declared = n_cases
+    s.done()
+    # 6. the same obligations for words stored as little-endian bitarrays (a bit string is its index order, whatever the storage)
+    s = rep.sub("little_endian_storage", "all 2^k messages (generate), all codewords x all single errors (check_and_correct), all 2^n words for n <= 16 "
+                                         "(check) supplied as bitarray(endian='little'): same results as for big-endian storage")
+    tasks = []
+    for name in LIB:
+        n, k = gf2.CODES[name][:2]
+        tasks += [(name, lo, hi) for lo, hi in par.chunks(1 << k, 16)]
+    for acc in par.pmap(w_little, tasks, nw):
+        s.merge(acc)
     s.done()
     rep.bounds = {"messages": "all 2^k", "words": "all 2^n", "single_errors": "all", "double_errors_16_11_4": "all"}
     return rep.finish()
